@@ -7,7 +7,7 @@ use serde_json::{json, Value};
 pub const DEF: PropDef = PropDef {
     id: "C15",
     level: "exploration",
-    rule: "58 base programs with up to 3 name placeholders in every name position (targets, operands, subscripts, listen, build/knock, rock/roll, mutation operand / destination, parameters, function and call names, poetic assignment, pronoun referents, erroring uses, 's / 're contractions, a name shared by a function and a parameter or variable); for each: all 6^k fillings from three name kinds x two alphabets (simple zed / élan, common the zed / my élan, proper Zed Yod / Élan Über Zed; distinct words per placeholder so that distinct spellings denote distinct variables); for every filling every single mention re-cased in each admissible way (proper names keep their capitals), all mentions re-cased at once, (thorough) all pairs of re-cased mentions, and all keywords upper-cased / title-cased / aLtErNaTeD / AlTeRnAtEd; plus 23 pairs of confusable names (names spelling float words such as nan / inf / infinity, same letters with other word breaks, with / without article, other article, with / without accent, swapped words) in 6 shapes, both orders; oracle (metamorphic, no reference interpreter): stdout and outcome class equal those of the all-simple-lowercase filling; non-trivial = every case (two executions compared); distinct = distinct program text",
+    rule: "58 base programs with up to 3 name placeholders in every name position (targets, operands, subscripts, listen, build/knock, rock/roll, mutation operand / destination, parameters, function and call names, poetic assignment, pronoun referents, erroring uses, 's / 're contractions, a name shared by a function and a parameter or variable); for each: all 8^k fillings from three name kinds x two alphabets (simple zed / élan, common the zed / my élan, proper Zed Yod / Élan Über Zed) plus simple and common names with a digraph letter that has a third, title-case form (U+01C4..U+01CC; distinct words per placeholder so that distinct spellings denote distinct variables); for every filling every single mention re-cased in each admissible way (proper names keep their capitals; digraph letters also in title case), all mentions re-cased at once, (thorough) all pairs of re-cased mentions, and all keywords upper-cased / title-cased / aLtErNaTeD / AlTeRnAtEd; plus 23 pairs of confusable names (names spelling float words such as nan / inf / infinity, same letters with other word breaks, with / without article, other article, with / without accent, swapped words) in 6 shapes, both orders; oracle (metamorphic, no reference interpreter): stdout and outcome class equal those of the all-simple-lowercase filling; non-trivial = every case (two executions compared); distinct = distinct program text",
     assumptions: &["error messages quote names as spelled and are therefore compared by class (ok / runtime error / parse error) only"],
     build,
     exhaustive: true,
@@ -135,10 +135,10 @@ fn confusable_case(idx: u64) -> (String, String, String) {
 }
 
 /// per placeholder: (spelling, kind) — kind 0 simple, 1 common, 2 proper
-pub const POOLS: [[(&str, u8); 6]; 3] = [
-    [("zed", 0), ("élan", 0), ("the zed", 1), ("my élan", 1), ("Zed Yod", 2), ("Élan Über Zed", 2)],
-    [("yod", 0), ("über", 0), ("the yod", 1), ("your über", 1), ("Yod Qux", 2), ("Über Élan Yod", 2)],
-    [("qux", 0), ("ñu", 0), ("our qux", 1), ("a ñu", 1), ("Qux Zed", 2), ("Ñu Élan Qux", 2)],
+pub const POOLS: [[(&str, u8); 8]; 3] = [
+    [("zed", 0), ("élan", 0), ("the zed", 1), ("my élan", 1), ("Zed Yod", 2), ("Élan Über Zed", 2), ("\u{1c6}em", 0), ("the \u{1c6}em", 1)],
+    [("yod", 0), ("über", 0), ("the yod", 1), ("your über", 1), ("Yod Qux", 2), ("Über Élan Yod", 2), ("\u{1c9}uba", 0), ("your \u{1c9}uba", 1)],
+    [("qux", 0), ("ñu", 0), ("our qux", 1), ("a ñu", 1), ("Qux Zed", 2), ("Ñu Élan Qux", 2), ("\u{1cc}iva", 0), ("a \u{1cc}iva", 1)],
 ];
 
 fn upper(s: &str) -> String {
@@ -181,6 +181,11 @@ pub fn recasings(name: &str, kind: u8) -> Vec<String> {
             // keep the capital, alternate the rest
             v.push(ws.iter().map(|w| title(&alternate(&w.to_lowercase()))).collect::<Vec<_>>().join(" "));
         }
+    }
+    // letters with a third, title-case form (the digraphs U+01C4..U+01CC): neither upper nor lower case
+    if kind < 2 {
+        let t: String = name.chars().map(|c| match c { '\u{1c6}' => '\u{1c5}', '\u{1c9}' => '\u{1c8}', '\u{1cc}' => '\u{1cb}', c => c }).collect();
+        v.push(t);
     }
     v.retain(|x| x != name);
     v.dedup();
@@ -282,7 +287,7 @@ pub struct C15 {
 }
 
 fn build(tier: Tier) -> Box<dyn Check> {
-    let six: Space<usize> = Space::of((0..6).collect());
+    let six: Space<usize> = Space::of((0..POOLS[0].len()).collect());
     let mut parts = Vec::new();
     for (bi, base) in BASES.iter().enumerate() {
         let k = placeholders(base);
